@@ -7,7 +7,7 @@ var ghostBuiltinNames = []string{
 	"seq", "seqOf", "bytesOf", "cat", "cat3", "cat4", "b1", "u16be", "sub", "slen", "sat", "mkseq", "seqEq", "seq0",
 	"sameSlice", "forallKey", "maxAlloc", "ssnap", "sliceSnap", "ssLen", "ssAt", "msnap", "mapSnap", "guardSnap", "guardVal", "guardSlice", "snapHas", "snapGet", "mapHas", "forall", "forallPairs", "forallGrid", "exists", "fresh", "arrayOf", "sameArray", "ite",
 	"evCount", "evIndex", "evArg", "evSlice", "evBytes", "evRet", "evTotal",
-	"holds", "holdsR", "closed", "isNilFunc", "closureIs", "closureVar", "sameFunc", "dynType", "typeIs",
+	"holds", "holdsR", "closed", "ownsChan", "onceDone", "isNilFunc", "closureIs", "closureVar", "sameFunc", "dynType", "typeIs",
 	"strBytesEq", "runeOK", "validUTF8", "utf8norm", "utf8normOf", "ovfFree", "unchanged", "fnCode", "readyAt",
 	"chainHas", "errChain", "retryOf", "isRetryErr", "ghostTrue", "splitOf", "joinedLen", "hasByte",
 }
@@ -145,6 +145,12 @@ func guardSlice[T any](p *[]T) ssnap[T] { return sliceSnap(*p) }
 
 // closed(ch): ghost "channel ch has been closed" (verifier only).
 func closed[T any](ch chan T) bool { return false }
+
+// ownsChan(ch): in a requires clause: this goroutine is the only one that closes ch.
+func ownsChan[T any](ch chan T) bool { return false }
+
+// onceDone(o): the sync.Once has run its function.
+func onceDone(o *sync.Once) bool { return false }
 
 // closureIs(f, "name"): the function value f was created from the function literal / function called name.
 func closureIs[F any](f F, name string) bool { return true }
